@@ -80,7 +80,6 @@ Definition ex_conf : wconf :=
 Example C13_nonvacuous_domain : run_ok ex_conf 8 3 true [ex_rec1; ex_rec2].
 Proof.
   constructor; try reflexivity; try (simpl; lia); try discriminate.
-  - split; [discriminate|reflexivity].
   - repeat constructor; simpl; try lia; try reflexivity.
 Qed.
 
@@ -97,9 +96,9 @@ Example C13_nonvacuous_fits : fits 8 (mkdec true 999999) /\ fits 8 (mkdec false 
 Proof. unfold fits. simpl. repeat split; try (vm_compute; reflexivity). vm_compute. discriminate. Qed.
 
 (* the empty title is in the domain; its file starts with a bare newline and reads back as such *)
-Definition ex_conf_empty : wconf := mkwconf (Some []) (Some 2%Z) (Some (7, 2)) BoxDefault.
+Definition ex_conf_empty : wconf := mkwconf (Some []) (Some 2%Z) None BoxDefault.
 Example C13_nonvacuous_empty_title :
-  run_ok ex_conf_empty 7 2 true [ex_rec1; ex_rec2] /\
+  run_ok ex_conf_empty 8 3 true [ex_rec1; ex_rec2] /\
   match write_gro ex_conf_empty [ex_rec1; ex_rec2] with
   | Ok f => hd_error f = Some NL /\ rmap r_comment (read_gro f) = Ok [NL]
   | Err _ => False
